@@ -15,6 +15,7 @@ import (
 )
 
 type Clause struct {
+	Props []string // restricts the clause to these properties ("@C13,C04" after the label)
 	Label string
 	Text  string
 	Expr  ast.Expr
@@ -52,6 +53,7 @@ type Contract struct {
 	Panics    []Clause // declared panic conditions ("panics when ...")
 	Trusted   string   // reason the body is not verified (e.g. reflection); contract is then an assumption
 	NoSafety  bool
+	Abstracted bool
 	Pure      bool
 	ReplayTpl string
 	Bounds    []Clause // extra assumptions used only for bounded counterexample search
@@ -149,7 +151,7 @@ type ContractSet struct {
 
 var keywords = map[string]bool{"spec": true, "global": true, "func": true, "assume": true, "props": true, "requires": true,
 	"ensures": true, "modifies": true, "inline": true, "loop": true, "lemma": true, "panics": true, "trusted": true,
-	"nosafety": true, "pure": true, "uf": true, "specname": true, "split": true, "at": true, "assumes": true, "small": true, "returns": true, "sets": true, "replay": true, "remainder": true, "sweep": true, "bound": true}
+	"nosafety": true, "abstracted": true, "pure": true, "uf": true, "specname": true, "split": true, "at": true, "assumes": true, "small": true, "returns": true, "sets": true, "replay": true, "remainder": true, "sweep": true, "bound": true}
 
 var labelRe = regexp.MustCompile(`^\[([A-Za-z0-9_.\-]+)\]\s*`)
 
@@ -192,6 +194,13 @@ func parseContractFile(path string, cs *ContractSet) error {
 		if m := labelRe.FindStringSubmatch(s); m != nil {
 			c.Label = m[1]
 			s = s[len(m[0]):]
+		}
+		if strings.HasPrefix(s, "@") {
+			j := strings.IndexAny(s, " \t")
+			if j > 0 {
+				c.Props = strings.Split(s[1:j], ",")
+				s = strings.TrimSpace(s[j:])
+			}
 		}
 		c.Text = s
 		ex, err := parseSpecExpr(s)
@@ -437,6 +446,11 @@ func parseContractFile(path string, cs *ContractSet) error {
 				cur.HasMod = true
 			case "nosafety":
 				cur.NoSafety = true
+			case "abstracted":
+				// the function calls code that is only havoc'd (reflection, user
+				// callbacks): safety refutations on paths that cross such a call
+				// are recorded as unproved, not as violations
+				cur.Abstracted = true
 			case "trusted":
 				cur.Trusted = rest
 				if cur.Trusted == "" {
